@@ -572,12 +572,18 @@ PROPS.update({
         "theorems": ["Foyer.Blk.splitter_refines_spec", "Foyer.Blk.split_refines", "Foyer.Blk.handle_refines",
                      "Foyer.Blk.layout_sound", "Foyer.Blk.block_layout_sound", "Foyer.Blk.placeAll_inv",
                      "Foyer.Blk.scan_reads_back", "Foyer.Blk.recover_reads_back", "Foyer.Blk.scan_chain"],
-        "monitor_props": ["C07"],
+        # the blob-reuse campaign runs the whole store (flusher placement, reclaim, reuse of a block whose previous
+        # life left complete blobs behind the new data, close + reopen): there a stale or foreign value delivered
+        # after the restart (a C01 clause) means recovery reconstructed entries that were not written in the block's
+        # current life, which is C07's claim too
+        "monitor_props": ["C07", "C01"],
         "campaigns": {
-            "quick": [{"name": "lay-unit", "args": ["cases=400", "maxops=12"]}],
-            "thorough": [{"name": "lay-unit", "args": ["cases=12000", "maxops=20"]}],
+            "quick": [{"name": "lay-unit", "args": ["cases=400", "maxops=12"]},
+                      {"name": "blk-blobreuse", "domain": "blk", "args": ["cases=2", "blobreuse=1"]}],
+            "thorough": [{"name": "lay-unit", "args": ["cases=12000", "maxops=20"]},
+                         {"name": "blk-blobreuse", "domain": "blk", "args": ["cases=40", "blobreuse=1"]}],
         },
-        "nontrivial": r"nblocks=([2-9]|\d\d)",
+        "nontrivial": r"nblocks=([2-9]|\d\d)|op=reopen",
         "rule": "the real Splitter::split with its SplitCtx carried across 1-20 batches per case, driven with synthetic entry "
                 "lengths (1 byte, exact page multiples +-1, the per-entry maximum and maximum-minus-a-page, random) on 16/32/64 KiB "
                 "blocks (block-full and blob-continuation paths) and 1 MiB blocks with batches of 169/170/171/1-340 one-page entries "
